@@ -7,7 +7,13 @@
    capacity, so a reader can hold a slice header whose backing array is written
    later.  The model therefore keeps slices as (array id, len, cap) over a heap of
    backing arrays.  (deleteLocation copies into a fresh array: repaired tree,
-   fix-c35-delete-copies; before the repair it compacted the shared array.) *)
+   fix-c35-delete-copies; before the repair it compacted the shared array.)
+
+   Repaired tree, second round: deleteLocation removes the map entry when the last
+   location goes (fix-c35-delete-last-entry; it used to leave "found, []"), and a
+   lost connection empties the map under the write lock, vidMap.reset()
+   (fix-c35-reset-under-lock; tryAllMasters used to overwrite the whole struct,
+   mutex included, while readers held the read lock). *)
 From Coq Require Import String List NArith ZArith Bool Ascii.
 Import ListNotations.
 Local Open Scope string_scope.
@@ -35,6 +41,9 @@ Fixpoint find_vid (v : N) (m : list (N * slice)) : option slice :=
   end.
 Definition put_vid (v : N) (s : slice) (m : list (N * slice)) : list (N * slice) :=
   (v, s) :: filter (fun e => negb (N.eqb v (fst e))) m.
+(* delete(vc.vid2Locations, vid) *)
+Definition del_vid (v : N) (m : list (N * slice)) : list (N * slice) :=
+  filter (fun e => negb (N.eqb v (fst e))) m.
 
 (* the elements a slice header denotes in a heap *)
 Definition cells (h : list (list loc)) (s : slice) : list loc :=
@@ -92,8 +101,9 @@ Fixpoint index_of_url (u : string) (ls : list loc) : option nat :=
   end.
 
 (* deleteLocation (repaired): kept := make([]Location, 0, len-1);
-   kept = append(kept, locations[0:i]...); append(kept, locations[i+1:]...) —
-   a FRESH array of exactly len-1 cells; the old array is left untouched *)
+   kept = append(kept, locations[0:i]...); kept = append(kept, locations[i+1:]...) —
+   a FRESH array of exactly len-1 cells; the old array is left untouched.
+   if len(kept) == 0 { delete(vc.vid2Locations, vid) } else { vc.vid2Locations[vid] = kept } *)
 Definition delete_location (m : vmap) (v : N) (l : loc) : vmap :=
   match find_vid v (v2l m) with
   | None => m
@@ -102,6 +112,10 @@ Definition delete_location (m : vmap) (v : N) (l : loc) : vmap :=
       match index_of_url (url l) cs with
       | None => m
       | Some i =>
+          if Nat.eqb (s_len s) 1 then
+            (* the last location: the entry goes, the volume is unknown again *)
+            {| heap := heap m; v2l := del_vid v (v2l m); data_center := data_center m |}
+          else
           {| heap := heap m ++ [firstn i cs ++ skipn (S i) cs];
              v2l := put_vid v {| s_arr := length (heap m); s_len := s_len s - 1; s_cap := s_len s - 1 |} (v2l m);
              data_center := data_center m |}
@@ -128,6 +142,27 @@ Definition lookup_locs (m : vmap) (v : N) : res (list loc) :=
   | None => Err ErrNotFound
   | Some ls => Ok (order_locs (data_center m) ls)
   end.
+
+(* the same lookup, NOT atomic: LookupVolumeServerUrl releases the read lock when
+   GetLocations returns (state m1) and then walks the slice and reads
+   vc.DataCenter without any lock; cell i is read in some later state [later i] *)
+Definition read_cells (later : nat -> vmap) (hd : slice) : list loc :=
+  map (fun i => nth i (nth (s_arr hd) (heap (later i)) []) zero_loc) (seq 0 (s_len hd)).
+Definition lookup_locs_conc (m1 : vmap) (later : nat -> vmap) (dcs : vmap) (v : N) : res (list loc) :=
+  match get_locations m1 v with
+  | None => Err ErrNotFound
+  | Some hd => Ok (order_locs (data_center dcs) (read_cells later hd))
+  end.
+
+(* a reader call that began after [lo] updates had completed and returned before
+   more than [hi] had begun took the lock after j updates for some lo <= j <= hi;
+   [p j] = "the answer is the one of the state after j updates" *)
+Fixpoint in_window (p : nat -> bool) (lo n : nat) : bool :=
+  match n with
+  | O => false
+  | S n' => if p lo then true else in_window p (S lo) n'
+  end.
+Definition window_ok (p : nat -> bool) (lo hi : nat) : bool := in_window p lo (S hi - lo).
 
 (* strconv.ParseUint(s, 10, 32) (repaired tree, fix-c35-vid-parse; it was
    strconv.Atoi followed by uint32(id)): at least one decimal digit, nothing
@@ -201,10 +236,11 @@ Definition apply (m : vmap) (e : ev) : vmap :=
   match e with
   | EvAdd v l => add_location m v l
   | EvDel v l => delete_location m v l
-  (* tryAllMasters after a connection ended without a leader hint:
-     mc.vidMap = newVidMap(mc.DataCenter) (repaired tree, fix-c35-reconnect-dc; it
-     was newVidMap("")) — the cache is dropped, the data center is kept; arrays
-     that readers still hold stay alive *)
+  (* tryAllMasters after a connection ended (or could not be made) without a
+     leader hint: mc.vidMap.reset() — under the write lock the map is replaced by
+     an empty one; the data center is never written after construction; arrays that
+     readers still hold stay alive.  (It was mc.vidMap = newVidMap(..): a struct
+     copy over the mutex, no lock.) *)
   | EvReset => new_vid_map (heap m) (data_center m)
   end.
 
@@ -243,6 +279,7 @@ Fixpoint r_find (v : N) (r : rmap) : option (list loc) :=
   end.
 Definition r_put (v : N) (ls : list loc) (r : rmap) : rmap :=
   (v, ls) :: filter (fun e => negb (N.eqb v (fst e))) r.
+Definition r_remove (v : N) (r : rmap) : rmap := filter (fun e => negb (N.eqb v (fst e))) r.
 
 Definition r_add (r : rmap) (v : N) (l : loc) : rmap :=
   match r_find v r with
@@ -259,7 +296,12 @@ Fixpoint remove_url (u : string) (ls : list loc) : list loc :=
 Definition r_del (r : rmap) (v : N) (l : loc) : rmap :=
   match r_find v r with
   | None => r
-  | Some ls => if has_url (url l) ls then r_put v (remove_url (url l) ls) r else r
+  | Some ls => if has_url (url l) ls
+               then match remove_url (url l) ls with
+                    | [] => r_remove v r          (* nothing left: not-found again *)
+                    | ls' => r_put v ls' r
+                    end
+               else r
   end.
 
 Definition r_apply (r : rmap) (e : ev) : rmap :=
